@@ -156,10 +156,22 @@ def r19_3(repo: Repo) -> RuleResult:
             rr.bad(f, construct, "row %s[%s] is not assigned exactly once per iteration" % (res, i), lp.lineno)
             continue
         sl = [n for n in ast.walk(stores[0].value) if isinstance(n, ast.Subscript) and isinstance(n.slice, ast.Slice)]
+        want_lo = sym.poly(ast.parse("%s * stride" % i, mode="eval").body)
+        # the sampled positions taken in one step: sequence[sample + <offset>] - the offset must be the window start
+        seq_p, sample_p = f.params[0], f.params[3]
+        fancy = [n for n in ast.walk(stores[0].value) if isinstance(n, ast.Subscript) and norm(n.value) == seq_p
+                 and not isinstance(n.slice, ast.Slice) and sample_p in {x.id for x in ast.walk(n.slice) if isinstance(x, ast.Name)}]
+        if not sl and len(fancy) == 1:
+            off = sym.sub(sym.poly(fancy[0].slice), sym.poly(ast.Name(id=sample_p, ctx=ast.Load())))
+            if off == want_lo:
+                rr.ok(f, construct, "%s[%s] = kernel(sequence[sample + %s*stride])" % (res, i, i), lp.lineno)
+            else:
+                rr.bad(f, construct, "window %s takes the sampled positions `%s`: its offset is `%s`, not the window start %s*stride - for "
+                       "stride > 1 every window after the first reads the wrong elements" % (i, norm(fancy[0].slice), sym.show(off), i), lp.lineno)
+            continue
         if len(sl) != 1 or sl[0].slice.lower is None or sl[0].slice.upper is None:
             raise AnalysisError("R19.3: window slice not recognised in %s" % short(stores[0]))
         lo, hi = sym.poly(sl[0].slice.lower), sym.poly(sl[0].slice.upper)
-        want_lo = sym.poly(ast.parse("%s * stride" % i, mode="eval").body)
         width = sym.sub(hi, lo)
         if lo == want_lo and width == sym.poly(ast.parse("width", mode="eval").body):
             rr.ok(f, construct, "%s[%s] = kernel(sequence[%s*stride : %s*stride + width])" % (res, i, i, i), lp.lineno)
